@@ -61,6 +61,12 @@ def check_lock_typestate(ctx):
                 par = par or parent_map(fi.node)
                 n += 1
                 p = par.get(c)
+                # `with X._modifying(f) if cond else nullcontext():` — the lock is still the context expression of the with
+                q = c
+                while isinstance(par.get(q), ast.IfExp) and par[q].test is not q:
+                    q = par[q]
+                if isinstance(par.get(q), ast.withitem):
+                    p = par[q]
                 if isinstance(p, ast.withitem):
                     ctx.ok('R12.1', f'{fi.module}|{fi.qualname}|with {norm(c, 60)}', sample=norm(c, 60))
                     continue
@@ -293,19 +299,37 @@ def check_manager(ctx):
         bad = [cfg.nodes[i] for i in reach if i not in rel_ids and may_raise(cfg.nodes[i])]
         return cfg, stores, bad, cfg.exit in reach
 
-    # a module-level helper that releases the entry on every path before anything that can raise is a release (wrapper summary)
+    # a module-level helper — or a method of the manager classes, `self._leave()` — that releases the entry on every path before anything
+    # that can raise is a release (wrapper summary)
     releasers = set()
     for q, fis in m.funcs.items():
         for fi in fis:
-            if '.' in q or isinstance(fi.node, ast.Lambda) or not any(store_stmt(x) for x in walk_no_nested(fi.node)):
+            if ('.' in q and not q.startswith('_Modifying')) or q.split('.')[-1] in ('enter', 'success', 'fail', '__exit__', '__enter__', '__init__') or \
+                    isinstance(fi.node, ast.Lambda) or not any(store_stmt(x) for x in walk_no_nested(fi.node)):
                 continue
             _, stores, bad, leak = release_analysis(fi, set())
             if stores and not bad and not leak:
                 releasers.add(fi.name)
     ctx.extra['registry_release_helpers'] = sorted(releasers)
 
+    def manager_methods(name):
+        """Definitions of `_Modifying.<name>`, looked up through the base classes when the variants share a version-independent base."""
+        out, seen, todo = [], set(), ['_Modifying']
+        while todo:
+            c = todo.pop()
+            if c in seen:
+                continue
+            seen.add(c)
+            got = m.func(f'{c}.{name}')
+            if got:
+                out += got
+                continue
+            for st in m.tree.body:
+                if isinstance(st, ast.ClassDef) and st.name == c:
+                    todo += [b.id for b in st.bases if isinstance(b, ast.Name)]
+        return out
     for q in ('_Modifying.enter', '_Modifying.success', '_Modifying.fail', '_Modifying.__exit__'):
-        fis = m.func(q)
+        fis = manager_methods(q.split('.')[1])
         if not fis:
             raise AnalysisError(f'fst_core.{q} not found')
         for fi in fis:
